@@ -1355,12 +1355,22 @@ def gen_var(m, rng, T, var, xml):
 def gen_message(m, rng, tmpl, xml):
     from hippolyzer.lib.base.message.message import Message, Block
     blocks = []
+    empty = []
     for b in tmpl.blocks:
         bt = int(b.block_type)     # MsgBlockType: 0 single, 1 multiple, 2 variable
-        n = 1 if bt == 0 else b.number if bt == 1 else rng.choice((0, 1, 2, 3))
+        n = 1 if bt == 0 else b.number if bt == 1 else rng.choice((0, 0, 1, 2, 3))
+        if n == 0 and rng.random() < 0.7:
+            empty.append(b.name)   # a Variable block that is PRESENT with zero entries (what a decoded count byte of 0 gives)
         for _ in range(n):
             blocks.append(Block(b.name, **{v.name: gen_var(m, rng, tmpl, v, xml) for v in b.variables}))
-    return Message(tmpl.name, *blocks)
+    msg = Message(tmpl.name, *blocks)
+    if empty:
+        # keep the template's block order in the dict: rebuild the block table in order
+        order = [b.name for b in tmpl.blocks]
+        for name in empty:
+            msg.create_block_list(name)
+        msg.blocks = {k: msg.blocks[k] for k in order if k in msg.blocks}
+    return msg
 
 
 def same_exact(m, a, b, path="$"):
